@@ -348,6 +348,9 @@ func (r *Reporter) Finish() int {
 	}
 	fmt.Printf("%s %s: states=%d transitions=%d validated=%d evaluations=%d nontrivial=%d outcomes=%d known=%d violations=%d exhaustive=%v wall=%.1fs\n",
 		r.Prop, r.Tier, r.states, r.transitions, r.validated, r.evaluations, len(r.nontrivial)+r.ntCount, len(r.outcomes), len(r.knownHits), r.nviol, r.exhaustive, wall)
+	if len(r.diverged) > 0 {
+		fmt.Printf("NOTE: %d case(s) had findings that did not reproduce identically on re-execution (listed under environment_divergences, e.g. %s); they are not counted as violations\n", len(r.diverged), r.diverged[0])
+	}
 	for _, l := range lines {
 		fmt.Println(l)
 	}
